@@ -322,7 +322,7 @@ def roundtrip_cases(build):
         for k in (1, 3, 7, 22):
             cases.append((f'B {K(k)} mul named:negate enc', enc_of_mul(R - k), f'encoding of negate([{k}]B)'))
             cases.append((f'B {K(k)} mul named:negate valid', 'true', f'round trip of negate([{k}]B)'))
-    return cases + decode_cases(build) + funnel_cases(build)[:200]
+    return cases + decode_cases(build) + funnel_cases(build)[:200] + conversion_cases(build)[-80:]
 
 def field_cases(build):
     from .poly import FIELDS
@@ -428,7 +428,7 @@ BATTERIES = {
     'C05': lambda b: smul_cases(b),
     'C08': lambda b: coherence_cases(b),
     'C17': lambda b: const_cases(b) + const_semantic_cases(b),
-    'C02': lambda b: decode_cases(b) + funnel_cases(b) + sqrt_cases(b)[:60],
+    'C02': lambda b: decode_cases(b) + funnel_cases(b) + sqrt_cases(b)[:60] + conversion_cases(b)[-80:],
     'C03': lambda b: encode_cases(b),
     'C04': lambda b: group_cases(b),
     'C07': lambda b, obs=(): elligator_cases(b) + sqrt_cases(b, obs),
